@@ -6,6 +6,7 @@ each pattern compilation), then replays it once per boundary with an exception r
 Storage faults and representable faults (raising context rules, malformed patterns) also go
 through the model; for every faulted run the answer must be exactly `False` (type bool) with no
 exception escaping."""
+import copy
 import re
 
 import proto
@@ -29,6 +30,13 @@ ASSUMPTIONS = ['BaseException subclasses that are not Exception (KeyboardInterru
 
 class Boom(Exception):
     pass
+
+
+class Unprintable:
+    """a value the application put into the inquiry context that cannot be rendered"""
+    def __repr__(self):
+        raise RuntimeError('this object cannot be printed')
+    __str__ = __repr__
 
 
 EXC = [Exception, ValueError, KeyError, RuntimeError, Boom, StopIteration, TypeError, AttributeError, re.error,
@@ -167,6 +175,29 @@ def run(ctx):
             if a is not False:
                 fails.append(('raise %s at fits call %d of %d' % (exc.__name__, kcall, nfits), a, 'must be False',
                               'fits-fault'))
+        # (a') the same faults with an inquiry that cannot be printed (a context value whose repr / str raise): whatever
+        #      the failure path wants to log about the inquiry, the answer is still False and nothing escapes
+        try:
+            inq_u = copy.copy(inq)
+            inq_u.context = dict(inq.context) if isinstance(inq.context, dict) else {}
+            inq_u.context['zz_unprintable'] = Unprintable()
+        except Exception:
+            inq_u = None
+        if inq_u is not None:
+            for mode in ['raise', ('iter', len(objs))] + ([('iter', 0)] if objs else []):
+                exc = pick(rng, EXC)
+                au = ask(FaultStorage(objs, mode, exc), polcase.make_checker(k), inq_u)
+                out.evaluations += 1
+                out.count('fault:unprintable-inquiry')
+                if au is not False:
+                    fails.append(('storage fault %r (%s) with an inquiry holding an unprintable value' % (mode, exc.__name__),
+                                  au, 'must be False', 'unprintable-inquiry'))
+            if nfits:
+                au = ask(FaultStorage(objs, None, Exception), FaultChecker(polcase.make_checker(k), 1, pick(rng, EXC)), inq_u)
+                out.evaluations += 1
+                if au is not False:
+                    fails.append(('checker fault with an inquiry holding an unprintable value', au, 'must be False',
+                                  'unprintable-inquiry'))
         # (c) representable faults: each context rule replaced by a raising one; each string element by a malformed one
         variants = []
         for pi, p in enumerate(case['policies']):
